@@ -1,5 +1,6 @@
 import OnetVerif.Model.Util
 import OnetVerif.Generated
+import OnetVerif.Model.C08Name
 /-! Model for property C08: the server-to-server TLS handshake of `network/tls.go` and what the
 router does with an authenticated connection (`network/router.go`).  Symbolic (Dolev–Yao):
 keys, nonces and signatures are terms, `schnorr.Verify` succeeds iff the term matches.  What is
@@ -509,6 +510,10 @@ of a point is no hex string either) -/
 def suiteOfV : String → Option Suite
   | "p256" => some ⟨false⟩ | t => suiteOf t
 
+/-- `MarshalSize()` of a point of the suite (kyber: Ed25519, bn256 G1 / G2, P256 uncompressed) -/
+def suiteLen : String → Option Nat
+  | "ed" => some 32 | "g1" => some 64 | "g2" => some 128 | "p256" => some 65 | _ => none
+
 /-- the certificate's window relative to the honest node's clock (seconds) -/
 def timeOf : String → Option Validity
   | "ok" => some (validityAt (-300) 7200 0)
@@ -802,6 +807,28 @@ def step (s : State) (toks : List String) : State × String :=
           (match dialConn suite (.hon 0) ⟨them, 0⟩ false (certFor .new 1 11 (.hon 0)).toList [7] with
             | (i, _) :: _ => labelOf i.pub | [] => "-") else "-"
       pure s!"link={if d.isNone && a.isNone then "ok" else "fail"} fwd={fwd} back={back}"
+    (s, r.getD "bad-op")
+  | "cn" :: rest =>
+    -- `cn suite=<ed|g1|g2|p256> name=<hex of the bytes of a common name> pts=<hex>:<1|0>,…`: `pubFromCN` on that
+    -- string under that suite (`MarshalSize` 32 / 64 / 128 / 65); `pts` is what the real `UnmarshalBinary` says about
+    -- the byte strings the generator built the name from.  Answer: `cn=ok:<hex of the key's bytes>` | `cn=err:<class>`
+    let r : Option String := do
+      let m ← kv rest
+      if m.length ≠ 3 then none
+      let len ← (← get m "suite") |> suiteLen
+      let name ← (← get m "name") |> NameBytes.Text.parseHex
+      let tbl ← (← get m "pts") |> NameBytes.Text.parseTable
+      pure (NameBytes.Text.cnOp len name tbl)
+    (s, r.getD "bad-op")
+  | "tocn" :: rest =>
+    -- `tocn suite=… key=<hex of the marshalled key>`: `pubToCN`; answer `name=<hex of the name's bytes>`
+    let r : Option String := do
+      let m ← kv rest
+      if m.length ≠ 2 then none
+      let len ← (← get m "suite") |> suiteLen
+      let key ← (← get m "key") |> NameBytes.Text.parseHex
+      if key.length ≠ len then none
+      pure ("name=" ++ NameBytes.Text.showHex (NameBytes.pubToCN (NameBytes.Text.anyGroup len) key))
     (s, r.getD "bad-op")
   | _ => (s, "bad-op")
 
